@@ -15,3 +15,7 @@ def fill(chk, NA):
         'explicit-state BFS over all envelope/HL/LX segment histories up to depth 5/6 over a ~50-symbol alphabet (plus a narrower alphabet to depth 6/8), every transition executed on the real reader and compared with an independent recount; non-nesting histories are explored too (no exception, some envelope error)',
         'trusted: ref.recount/ref.nests (written from the statement); control numbers range over two values per level; HL/LX verdicts the statement leaves open are not compared',
         'explicit-state breadth-first search of the real reader paired with a reference model', 'E2', 'DESIGN.md 3/C04')
+    chk('C02', 'model_checking',
+        '(a) explicit-state BFS of the real walker paired with an independent grammar automaton: every grammar-permitted successor of every reachable (node, counter) state of every selectable map must land on the intended node with no error, and every segment no node can match must be refused; (b) every conformant document within one (quick) / two (thorough) deviations of the minimal document of every index entry through the whole validator with acknowledgement',
+        'trusted: the independent map reading and first-match grammar (mc/grammar.py, mc/gen.py); documents the grammar itself finds ambiguous are skipped and counted; repeat counts are driven to max only when max<=10; two values per element',
+        'explicit-state search over the real transition function (walk_tree.walk) with a reference grammar automaton, plus exhaustive bounded enumeration of conformant documents', 'E2+E3', 'DESIGN.md 3/C02')
